@@ -134,14 +134,17 @@ type scenario struct {
 	Restart2Of int
 	Restart2At int
 	Absent     []int // members that start only after the Notary role is designated
-	Label      string
+	// LateOf starts only 135 blocks after an early signer's signature (or, without one, the shared
+	// transaction data) has appeared in the NNS, i.e. after that data expired (-1: none)
+	LateOf int
+	Label  string
 }
 
 func scenarios(tier string, seed uint64) []scenario {
 	r := rand.New(rand.NewPCG(seed, 0xC13))
 	var res []scenario
 	mk := func(n int, label string) scenario {
-		s := scenario{N: n, BlockMS: 70, RestartOf: -1, Restart2Of: -1, Label: label}
+		s := scenario{N: n, BlockMS: 70, RestartOf: -1, Restart2Of: -1, LateOf: -1, Label: label}
 		s.Offsets = make([]int, n)
 		return s
 	}
@@ -165,6 +168,7 @@ func scenarios(tier string, seed uint64) []scenario {
 		s = jit(mk(3, "leader-restart"))
 		s.RestartOf, s.RestartAt = 0, 30+r.IntN(80)
 		res = append(res, s)
+		res = append(res, lateMajority(jit(mk(4, "late-majority")), r))
 		return res
 	}
 	for n := 1; n <= 7; n++ {
@@ -201,8 +205,31 @@ func scenarios(tier string, seed uint64) []scenario {
 			sort.Ints(s.Absent)
 		}
 		res = append(res, s)
+		if n >= 3 {
+			res = append(res, lateMajority(jit(mk(n, "late-majority")), r))
+		}
 	}
 	return res
+}
+
+// lateMajority: one member short of a majority starts at once and publishes signatures, the member
+// completing the majority joins only after the shared transaction data has expired (120 blocks
+// after it was published); the rest stays away until the Notary role is designated.
+func lateMajority(s scenario, r *rand.Rand) scenario {
+	maj := s.N/2 + 1
+	for i := range s.Offsets {
+		switch {
+		case i < maj-1:
+			s.Offsets[i] = r.IntN(4)
+		case i == maj-1:
+			s.Offsets[i] = r.IntN(30)
+			s.LateOf = i
+		default:
+			s.Offsets[i] = 0
+			s.Absent = append(s.Absent, i)
+		}
+	}
+	return s
 }
 
 const blockBudget = 1500
@@ -295,9 +322,34 @@ func runScenario(b *runner.Batch, sc scenario) {
 			time.Sleep(blockTime / 2)
 		}
 	}
+	var lateRegenerated atomic.Bool
 	var runMember func(i int, first bool)
 	runMember = func(i int, first bool) {
 		defer wg.Done()
+		if first && sc.LateOf == i {
+			// wait for the record that is about to become stale, then let the shared data expire
+			domain := "designate-committee-notary-tx.bootstrap"
+			if i >= 2 {
+				domain = fmt.Sprintf("designate-committee-notary-%d.bootstrap", i-1)
+			}
+			cr := &chainReader{nd: nd}
+			read := func(name string) string {
+				h, err := nd.Chain.GetContractScriptHash(1)
+				if err != nil {
+					return ""
+				}
+				recs, _ := cr.resolveTXT(h, name)
+				return strings.Join(recs, ",")
+			}
+			for read(domain) == "" && time.Since(start) < watchdog && nd.Height() < 3*blockBudget {
+				time.Sleep(blockTime)
+			}
+			shared := read("designate-committee-notary-tx.bootstrap")
+			waitBlocks(135)
+			if now := read("designate-committee-notary-tx.bootstrap"); shared != "" && now != "" && now != shared {
+				lateRegenerated.Store(true)
+			}
+		}
 		if first {
 			waitBlocks(sc.Offsets[i])
 			if absent[i] {
@@ -489,6 +541,18 @@ wait:
 	}
 	if sc.N >= 4 {
 		b.Hit("designation-with>=2-remote-signatures")
+	}
+	if sc.LateOf >= 0 && lateRegenerated.Load() {
+		b.Hit("majority-completed-after-shared-data-expiry")
+		rec.mu.Lock()
+		var evs []string
+		for _, e := range rec.events {
+			if len(evs) < 120 {
+				evs = append(evs, fmt.Sprintf("h%d m%d %s %s %s", e.Height, e.Member, e.Call, e.Info, e.Err))
+			}
+		}
+		rec.mu.Unlock()
+		b.Sample(map[string]any{"scenario": fmt.Sprintf("%+v", sc), "submissions": evs})
 	}
 	b.Hit(fmt.Sprintf("completed-n%d", sc.N))
 	b.Eval("scenario|"+key+"|completed", true)
@@ -845,13 +909,13 @@ func runC13(b *runner.Batch) {
 func init() {
 	runner.Register(&runner.Check{
 		ID: "C13", Level: "exploration",
-		Rule: "Scenarios on a real in-process neo-go node (blockchain, network server with mempool and notary request pool, Notary service, RPC server with in-process clients, harness block producer as logical clock): every committee member runs the public deploy.Deploy with the embedded contracts; a scenario fixes committee size (quick 1,2,3,4,4; thorough 1..7 x 6), per-member start offsets, per-call delays injected at the RPC boundary, optionally an interruption of one member at a PRNG-chosen block followed by a restart, optionally a minority of non-leading members absent until the Notary role appears. Judged: return values, progress within 1500 blocks, roles, NNS id and records, executables by checksum, ContractManagement Deploy event counts, submissions the node refuses as invalid, a second run over the finished chain (no Deploy/Update/Designation event, NNS storage unchanged), and Go race detector reports with a frame in neofs-contract/deploy (the child binary is built with -race). Pure helpers through verif-tagged exports: fund division exhaustive for 0..2000 x 1..41 plus uint64 boundaries, nonce/validity window for heights 0..10000 and the last 300 below 2^32, shared-transaction-data codec round trips. distinct = scenario (size, label, outcome) and helper class.",
+		Rule: "Scenarios on a real in-process neo-go node (blockchain, network server with mempool and notary request pool, Notary service, RPC server with in-process clients, harness block producer as logical clock): every committee member runs the public deploy.Deploy with the embedded contracts; a scenario fixes committee size (quick 1,2,3,4,4,3,4; thorough 1..7 x 8-9), per-member start offsets, per-call delays injected at the RPC boundary, optionally an interruption of one member at a PRNG-chosen block followed by a restart, optionally a second interruption (of the same or another member), optionally a minority of non-leading members absent until the Notary role appears, optionally a 'late majority' (one member short of a majority publishes signatures, the completing member joins 135 blocks after the last early signature appeared in the NNS; the monitor confirms that the shared transaction data was generated again in between). Judged: return values, progress within 1500 blocks, roles, NNS id and records, executables by checksum, ContractManagement Deploy event counts, submissions the node refuses as invalid, a second run over the finished chain (no Deploy/Update/Designation event, NNS storage unchanged), and Go race detector reports with a frame in neofs-contract/deploy (the child binary is built with -race). Pure helpers through verif-tagged exports: fund division exhaustive for 0..2000 x 1..41 plus uint64 boundaries, nonce/validity window for heights 0..10000 and the last 300 below 2^32, shared-transaction-data codec round trips. distinct = scenario (size, label, outcome) and helper class.",
 		Assumptions: []string{"neo-go v0.107.0 node components are the trusted base", "goroutine interleavings are sampled, not enumerated; a replay re-runs the scenario parameters and carries the recorded RPC log of the failing run as witness",
 			"funding transfers (GAS top-ups, notary deposits) of a second run are logged, not judged"},
 		Batches: func(t string) int { return 1 + len(scenarios(t, 1)) },
 		NoTree:  true, Chunk: 1, Race: true, MaxParallel: 6,
 		ChildTimeout: func(string) time.Duration { return 20 * time.Minute },
-		Floors:       []string{"helper:divideFundsEvenly", "helper:transactionModifier", "helper:sharedTransactionData", "completed-n1", "completed-n2", "completed-n3", "completed-n4", "restart-survived", "leader-restart-survived", "absent-minority-bootstrap", "idempotence-rerun", "designation-with>=2-remote-signatures"},
+		Floors:       []string{"helper:divideFundsEvenly", "helper:transactionModifier", "helper:sharedTransactionData", "completed-n1", "completed-n2", "completed-n3", "completed-n4", "restart-survived", "leader-restart-survived", "absent-minority-bootstrap", "majority-completed-after-shared-data-expiry", "idempotence-rerun", "designation-with>=2-remote-signatures"},
 		Run:          runC13,
 		Exhaustive: func(string) (bool, string) {
 			return true, "fund division for all amounts 0..2000 x 1..41 receivers; nonce/validity window for all heights 0..10000 (deployment scenarios are sampled)"
